@@ -5,22 +5,35 @@ LEVEL = "model_checking"
 
 
 def run(ck):
-    conslib.design_check(ck, "C02")
-    plan = [("uniform", 16), ("random", 24)] if ck.tier == "quick" else [("uniform", 150), ("random", 300), ("gst", 40)]
-    seeds = [ck.seed] if ck.tier == "quick" else [ck.seed, ck.seed + 1000]
-    conslib.run_layers(ck, plan, ["C02_"], seeds=seeds, conformance=(ck.tier != "quick"))
+    quick = ck.tier == "quick"
+    if quick:
+        conslib.quorum_design(ck, ["MCQ_c02_r0"], ["MCQ_atbound_r0"])
+    else:
+        conslib.quorum_design(ck, ["MCQ_c02_r0", "MCQ_c02"], ["MCQ_atbound"], timeout=2400)
+    hists = conslib.permsg_design(ck, "c02", "nest", 120 if quick else 3000, maxround=2)
+    plan = [("uniform", 16), ("random", 24)] if quick else [("uniform", 150), ("random", 300), ("gst", 40)]
+    seeds = [ck.seed] if quick else [ck.seed, ck.seed + 1000]
+    conslib.run_layers(ck, plan, ["C02_"], seeds=seeds, conformance=not quick)
+    if not ck.violations:
+        conslib.replay_conformance(ck, ck.binary, "nest", hists[: (60 if quick else 1500)], ["C02_"], conformance=not quick)
+    if not ck.violations:
+        conslib.attack_replays(ck, ck.binary, ["C02_"])
     a = ck.cov["antecedents"]
-    if a.get("decisions", 0) < 20 or not a.get("byz_deliveries"):
+    if not ck.violations and (a.get("decisions", 0) < 20 or not a.get("byz_deliveries")):
         raise Inconclusive("vacuous run: %s" % a)
-    ck.cov["distinct_nontrivial"] = a["runs"]
-    ck.cov["rule"] = ("runs of real participants: 'uniform' = same input everywhere, no faulty member, delays below the synchrony bound (decision must equal the input); "
-                      "'random' = forked/nested inputs with Byzantine members < 1/3 proposing arbitrary known chains; clauses NonEmpty, Base, HonestPrefix, UniformDecidesInput evaluated by TLC")
+    ck.cov["distinct_nontrivial"] = a["runs"] + ck.cov.get("replayed_tlc_schedules", 0) + ck.cov.get("attack_schedules_replayed", 0)
+    ck.cov["rule"] = ("design: all reachable states of GPBFTQuorum.tla (nested and forked inputs) + random walks of MCGPBFT.tla; code: a case = one run of real participants: 'uniform' = same input "
+                      "everywhere, no faulty member, delays below the synchrony bound (decision must equal the input); 'random' = forked/nested inputs with Byzantine members < 1/3 proposing "
+                      "arbitrary known chains; replays of TLC-chosen schedules and of TLC attack counterexamples (foreign base, never-proposed value, unjustified DECIDE); clauses NonEmpty, Base, "
+                      "HonestPrefix, UniformDecidesInput evaluated by TLC")
+    ck.assumptions += ["sim/signing.FakeBackend stands for BLS (signatures unforgeable)", "the driver's scheduler and recorder (no oracle in Go)"]
 
 
 MANIFEST = dict(
-    text=("Validity invariants are model-checked by TLC on the quorum-view abstraction GPBFTQuorum.tla (all schedules x all Byzantine strategies within small bounds) and the same "
-          "clauses (non-empty, base, prefix of an honest input, uniform input decided under synchrony) are evaluated by TLC on recorded runs of real participants; attack schedules "
-          "obtained as TLC counterexamples of mutant configurations are replayed on real participants."),
+    text=("Validity (non-empty, own base, prefix of an honest input) is an invariant model-checked by TLC exhaustively on the quorum-view abstraction GPBFTQuorum.tla (all schedules x all "
+          "Byzantine strategies, 3 honest + 1 Byzantine, nested and forked inputs; quick: round 0, thorough: rounds 0-1) and by simulation on the per-message model MCGPBFT.tla; the same "
+          "clauses plus 'uniform input is decided under synchrony without faulty senders' are evaluated by TLC on recorded runs of real participants, on replays of TLC-chosen schedules, "
+          "and on replays of TLC counterexamples of mutant specs (foreign base admitted, never-proposed value justified by an unchecked justification, unjustified DECIDE)."),
     note="Trusted: TLC, driver, FakeBackend. Exhaustive within the abstraction's bounds (3H+1B, rounds 0-1); real runs are sampled.",
-    technique="TLC model checking of GPBFTQuorum.tla + TLA+ clause monitors on traces of real participants",
+    technique="TLC model checking of GPBFTQuorum.tla/MCGPBFT.tla + replay of TLC-generated schedules and attack counterexamples on real participants + TLA+ trace monitors",
     design_ref="DESIGN.md section 5 and section 6 C02")
